@@ -288,4 +288,40 @@ def grpcContentType : Bytes := str "application/grpc"
 def responseContentType (text : Bool) : Bytes :=
   if text then str "application/grpc-web-text+proto" else str "application/grpc-web+proto"
 
+/-! ### Which responses are grpc-web responses (PROTOCOL-WEB.md; RFC 9110 §8.3.1 media types)
+
+A media type is compared without regard to case, parameters (`; charset=utf-8`) are not part of
+it, and the grpc-web types come with an optional message-format suffix (`+proto`, `+json`,
+`+thrift`, …: "application/grpc-web[+format]", "application/grpc-web-text[+format]"). -/
+
+inductive RespKind where
+  | binary   -- `application/grpc-web[+format]`: frames as they are
+  | text     -- `application/grpc-web-text[+format]`: base64 of the frames
+  | other    -- not a grpc-web response: the property says nothing
+  deriving DecidableEq, Repr
+
+/-- type/subtype of a `content-type` value: up to the first `;`, optional whitespace around it
+removed, lower case -/
+def mediaType (ct : Bytes) : Bytes := (owsTrim (ct.takeWhile (· != 59))).map Ascii.toLower
+
+def isPrefixB : Bytes → Bytes → Bool
+  | [], _ => true
+  | _ :: _, [] => false
+  | a :: as, b :: bs => a == b && isPrefixB as bs
+
+/-- `mt` is `base` or `base+<format>` -/
+def isTypeOrSuffixed (base mt : Bytes) : Bool := mt == base || isPrefixB (base ++ [43]) mt
+
+/-- The kind of a response by its `content-type`.  A response WITHOUT a content-type is taken
+for what the client asked for (it sent `content-type: application/grpc-web` and no `accept` for
+the text form). -/
+def respKind (ct : Option Bytes) : RespKind :=
+  match ct with
+  | none => .binary
+  | some v =>
+    let mt := mediaType v
+    if isTypeOrSuffixed (str "application/grpc-web") mt then .binary
+    else if isTypeOrSuffixed (str "application/grpc-web-text") mt then .text
+    else .other
+
 end Spec.GrpcWeb
